@@ -502,7 +502,7 @@ Print Assumptions C15_cc_config_one_step_behind_partial.
 (* non-vacuity of the membership-change model: in a 3-voter cluster node 1 is elected, proposes
    "add voter 4" (payload 104), replicates it to node 2, commits it and from then on decides with
    the configuration {1,2,3,4} *)
-Definition ccx_boot : conf := mkC [1; 2; 3] [] false.
+Definition ccx_boot : conf := mkC [1; 2; 3] [] false [].
 Definition ccx_app : msg := mkMsg MsgApp 1 2 1 0 0 [(1, 0); (1, 104)] 0 false.
 Definition ccx_ack : msg := mkMsg MsgAppResp 2 1 1 0 2 [] 0 false.
 Definition ccx_trace : list (nat * event * list msg) :=
@@ -517,22 +517,25 @@ Example C15_ex_cc_run : exists x,
   cxreachable ccx_boot false x /\
   n_role (fst (cx_nodes x 1)) = Leader /\ n_commit (fst (cx_nodes x 1)) = 2 /\
   n_log (fst (cx_nodes x 1)) = [(1, 0); (1, 104)] /\
-  node_cfg ccx_boot (fst (cx_nodes x 1)) = mkC [1; 2; 3; 4] [] false /\
+  node_cfg ccx_boot (fst (cx_nodes x 1)) = mkC [1; 2; 3; 4] [] false [] /\
   node_cfg ccx_boot (fst (cx_nodes x 2)) = ccx_boot.
 Proof.
   assert (H : exists x, run_cc ccx_boot false cx_init ccx_trace = Some x /\
     n_role (fst (cx_nodes x 1)) = Leader /\ n_commit (fst (cx_nodes x 1)) = 2 /\
     n_log (fst (cx_nodes x 1)) = [(1, 0); (1, 104)] /\
-    node_cfg ccx_boot (fst (cx_nodes x 1)) = mkC [1; 2; 3; 4] [] false /\
+    node_cfg ccx_boot (fst (cx_nodes x 1)) = mkC [1; 2; 3; 4] [] false [] /\
     node_cfg ccx_boot (fst (cx_nodes x 2)) = ccx_boot).
   { eexists. split; [vm_compute; reflexivity|]. vm_compute. repeat split. }
   destruct H as (x & Hrun & Hrest). exists x. split; [|exact Hrest].
   apply (run_cc_reachable ccx_boot false ccx_trace cx_init x); [apply CXR_init|exact Hrun].
 Qed.
 
-Example C15_ex_conf_step : apply_cc ccx_boot (CcJoint 4 3) = Some (mkC [1; 2; 4] [1; 2; 3] true)
-  /\ apply_cc (mkC [1; 2; 4] [1; 2; 3] true) CcLeave = Some (mkC [1; 2; 4] [] false)
-  /\ apply_cc ccx_boot (CcRemove 2) = Some (mkC [1; 3] [] false).
+Example C15_ex_conf_step : apply_cc ccx_boot (CcJoint 4 3) = Some (mkC [1; 2; 4] [1; 2; 3] true [])
+  /\ apply_cc (mkC [1; 2; 4] [1; 2; 3] true []) CcLeave = Some (mkC [1; 2; 4] [] false [])
+  /\ apply_cc ccx_boot (CcRemove 2) = Some (mkC [1; 3] [] false [])
+  /\ apply_cc ccx_boot (CcAddLearner 4) = Some (mkC [1; 2; 3] [] false [4])
+  /\ apply_cc (mkC [1; 2; 3] [] false [4]) (CcAdd 4) = Some (mkC [1; 2; 3; 4] [] false [])
+  /\ apply_cc ccx_boot (CcAddLearner 2) = Some (mkC [1; 3] [] false [2]).
 Proof. repeat split. Qed.
 
 (* ------------------------------------------------------------------ Config.PreVote
